@@ -3,6 +3,7 @@ package props
 import (
 	"bytes"
 	"fmt"
+	"os"
 	"testing"
 
 	cose "github.com/veraison/go-cose"
@@ -496,4 +497,90 @@ func genC12VerifyCase(rt *rapid.T) c12VerifyCase {
 		c.RevProt = rapid.IntRange(0, 3).Draw(rt, "rev-prot") == 0
 		return c
 	}
+}
+
+// ---------------------------------------------------------------------------
+// byte-level consumer side: the two header buckets and the payload are raw
+// bytes (fuzzer-controlled), the signature is always a valid reference
+// signature over them, so that every input reaches the envelope rules.
+
+type c12RawCase struct {
+	ProtContent rc.Hex `json:"prot_content"` // content of the protected bstr (any bytes)
+	Unprot      rc.Hex `json:"unprot"`       // the unprotected item (any bytes)
+	Hash        rc.Hex `json:"hash"`
+}
+
+var c12RawKey = refcose.KeyMat{Alg: refcose.AlgEdDSA, D: rc.Hex("c12-raw-ed25519-seed-of-32-bytes")}
+
+func checkC12Raw(c c12RawCase) error {
+	sig := refcose.Sign(c12RawKey.Alg, c12RawKey, refcose.SigStructure1(c.ProtContent, nil, c.Hash), nil)
+	w := []byte{0xd2, 0x84}
+	w = append(w, rc.Encode(rc.Bytes(c.ProtContent), nil)...)
+	w = append(w, c.Unprot...)
+	w = append(w, rc.Encode(rc.Bytes(c.Hash), nil)...)
+	w = append(w, rc.Encode(rc.Bytes(sig), nil)...)
+	ver, err := libVerifier(c12RawKey, false)
+	if err != nil {
+		return err
+	}
+	msg, verr := cose.VerifyHashEnvelope(ver, append([]byte{}, w...))
+	if verr != nil {
+		if msg != nil {
+			return finding("message-with-error", "VerifyHashEnvelope returned a message together with %v", verr)
+		}
+		stats.Class("raw/refused")
+		return nil
+	}
+	if msg == nil {
+		return finding("nil-message", "VerifyHashEnvelope returned (nil, nil)")
+	}
+	env, perr := refcose.ParseEnv(refcose.KSign1, w)
+	if perr != nil {
+		return finding("accepted-illformed", "VerifyHashEnvelope accepts bytes the reference cannot parse as a COSE_Sign1: %v\nenvelope=%x", perr, w)
+	}
+	if werr := refcose.WellFormed(refcose.KSign1, w); werr != nil {
+		if ie, ok := werr.(*refcose.IllFormed); ok {
+			return finding("accepted-illformed/"+ie.Base(), "%v\nenvelope=%x", werr, w)
+		}
+		return finding("accepted-illformed", "%v\nenvelope=%x", werr, w)
+	}
+	if rules := refHashEnvelopeRules(env); rules != nil {
+		return finding("accepted-nonconforming", "VerifyHashEnvelope returns a message for an envelope violating the rules: %v\nenvelope=%x", rules, w)
+	}
+	a, _ := env.ProtMap.Lookup(258).Int64()
+	if got, ok := msg.Headers.Protected[int64(258)].(cose.Algorithm); !ok || int64(got) != a {
+		return finding("returned-hash-alg", "returned 258 = %T(%v), wire has %d", msg.Headers.Protected[int64(258)], msg.Headers.Protected[int64(258)], a)
+	}
+	if !bytes.Equal(msg.Payload, c.Hash) {
+		return finding("returned-payload", "returned payload differs from the envelope's")
+	}
+	stats.Class("raw/accepted")
+	return nil
+}
+
+func init() { register("c12raw", checkC12Raw) }
+
+// FuzzC12 is the native coverage-guided target of the consumer side.
+func FuzzC12(f *testing.F) {
+	cur = propCtx{Property: "C12", Part: "fuzz"}
+	if os.Getenv("VERIF_FUZZ_NOSEEDS") == "" {
+		g := rapid.Custom(func(t *rapid.T) c12VerifyCase { return genC12VerifyCase(t) })
+		for i := 1; i <= 24; i++ {
+			e := g.Example(i)
+			p, u := applyEdits(e.Prot, e.Unprot, e.Edits)
+			content := []byte{}
+			if len(p.M) > 0 {
+				content = rc.Encode(p, nil)
+			}
+			f.Add(content, rc.Encode(u, nil), []byte(e.Hash))
+		}
+		f.Add([]byte{0xa2, 0x01, 0x27, 0x19, 0x01, 0x02, 0x2f}, []byte{0xa0}, make([]byte, 32))
+	}
+	f.Fuzz(func(t *testing.T, prot, unprot, hash []byte) {
+		if len(prot) > 1<<12 || len(unprot) > 1<<12 || len(hash) > 1<<10 {
+			return
+		}
+		stats.Eval()
+		judge(t, "c12raw", c12RawCase{ProtContent: prot, Unprot: unprot, Hash: hash}, checkC12Raw)
+	})
 }
